@@ -425,6 +425,8 @@ func (brr *BalanceRR) simpleBalance() (*backend.BfeBackend, error) {
 				brr.initWeight()
 				brr.next = 0
 				next = 0
+				// check again after reset: backends may go down meanwhile
+				allBackendDown = true
 			}
 		}
 	}
